@@ -16,7 +16,7 @@ theorem perm_range_lt {idx : List Nat} {n : Nat} (h : idx.Perm (List.range n)) :
 theorem perm_range_length {idx : List Nat} {n : Nat} (h : idx.Perm (List.range n)) : idx.length = n := by
   simpa using h.length_eq
 
-/-- `DataFrame.groupby`: never fails on a rectangular frame with at least one key; the result is `(None, spans)` with
+/-- `DataFrame.groupby` as found (stacked key columns): never fails on a rectangular frame with at least one key; the result is `(None, spans)` with
     the frame already sorted, or `(sort index, spans)`; in both cases `idx` is a stable sort index of the frame and
     `spans` are the spans of the key rows read along it -/
 theorem groupby_paths (k0 : KeyCol) (ks : List KeyCol) (hint : Bool) (n : Nat)
@@ -24,7 +24,7 @@ theorem groupby_paths (k0 : KeyCol) (ks : List KeyCol) (hint : Bool) (n : Nat)
     (hhint : hint = true → SortedRows ((k0 :: ks).map (·.data)) n) :
     ∃ idx si, idx.Perm (List.range n) ∧ idx.Pairwise (ltBy ((k0 :: ks).map (·.data))) ∧
       ((si = none ∧ idx = List.range n) ∨ si = some idx) ∧
-      groupby .repaired (k0 :: ks) hint =
+      groupbyStacked .repaired (k0 :: ks) hint =
         .ok ⟨si, spans neq (rowsBy (colsAlong ((k0 :: ks).map (·.data)) idx) n)⟩ := by
   have hstack := stack_ok k0 ks n hrect
   have hk0 : k0.data.length = n := hrect k0.data (by simp)
@@ -36,7 +36,7 @@ theorem groupby_paths (k0 : KeyCol) (ks : List KeyCol) (hint : Bool) (n : Nat)
     intro hsorted
     refine ⟨range_sorted_index _ n hsorted, ?_⟩
     rw [spans_stacked k0 ks n hrect hf, colsAlong_range _ n hrect]
-  unfold groupby
+  unfold groupbyStacked
   rw [hstack]
   cases hint with
   | true =>
